@@ -18,7 +18,10 @@ PROP = dict(
          "large (4..1000, half the tile) and negative; every state is rendered in the order A, B, A, B (B = the same state in the "
          "other font face of the same cell width; both A's and both B's must agree: images, RGB exports, colours) and once with "
          "Inverted flipped; the argument after the call is printed and compared with the model's filled form; every 6th state "
-         "and every small tile also prints the RGB565 export; 12% of the cases are bar-monotonicity pairs (hidden value or a "
+         "and every small tile also prints the RGB565 export; 8% of the states are also rendered by a fresh process; 10% are "
+         "rendered before and after a sibling state with absent sub-messages (any subset of TextStyling, TextFont, TitleFont, "
+         "Scale) was rendered and every field of what the renderer filled in was edited by its owner - mostly the state itself "
+         "has the same sub-messages absent - and must come out the same (40% of these also against a fresh process); 12% of the cases are bar-monotonicity pairs (hidden value or a "
          "float format whose printed text is the same at both values; any pair mode, icons, limits), 25% centring cases; "
          "non-trivial = the image has both lit and dark pixels; distinct = distinct record text",
     trusted_base=["IEEE-754 double division/multiplication and fmt %.Nf are modelled with integers (Base/Dbl.lean) and validated by the correspondence",
